@@ -114,7 +114,7 @@ def import_git_blob(
     for ptree in parent_bzr_trees:
         intertree = InterTree.get(ptree, base_bzr_tree)
         try:
-            ppath = intertree.find_source_paths(decoded_path, recurse="none")
+            ppath = intertree.find_source_path(decoded_path, recurse="none")
         except NoSuchFile:
             continue
         if ppath is None:
